@@ -687,6 +687,27 @@ class TenSym(PySym):
             return frozenset(vals)
         raise Unsupported("expression %s" % type(n).__name__)
 
+    def sign(self, d):
+        """-1 / 0 / +1 of a value that is a constant or c0 + c1*pi with constant c0, c1 (decided numerically, pi = 3.14159...)"""
+        d = self.lift(d)
+        c = d.const_value() if isinstance(d, Rat) else None
+        if c is not None:
+            return (c > 0) - (c < 0)
+        if isinstance(d, Rat) and set(d.n.vars()) | set(d.d.vars()) <= {"pi"}:
+            def num(p):
+                val = 0.0
+                for m, cf in p.t.items():
+                    val += float(cf) * (3.141592653589793 ** dict(m).get("pi", 0))
+                return val
+            # exact cancellation first: n and d as polynomials in pi
+            if d.n.is_zero():
+                return 0
+            vn, vd = num(d.n), num(d.d)
+            if abs(vn) < 1e-9 * max(1.0, abs(vd)) or abs(vd) < 1e-12:
+                raise Unsupported("comparison too close to call numerically")
+            return 1 if (vn > 0) == (vd > 0) else -1
+        raise Unsupported("sign of a symbolic quantity")
+
     def compare(self, op, a, b, n=None):
         if isinstance(op, (ast.Is, ast.IsNot)):
             r = a is b or (a is None and b is None)
@@ -704,7 +725,11 @@ class TenSym(PySym):
             for x, y in zip(ta.data, tb.data):
                 cx, cy = x.const_value(), y.const_value()
                 if cx is None or cy is None:
-                    raise Unsupported("comparison of symbolic values: %s" % (src(n) if n is not None else "?"))
+                    try:
+                        sg = self.sign(x - y)
+                    except Unsupported:
+                        raise Unsupported("comparison of symbolic values: %s" % (src(n) if n is not None else "?"))
+                    cx, cy = sg, 0
                 out.append(Rat(Poly.const(int(self.compare(op, cx, cy)))))
             res = Ten(sh, out)
             res.isbool = True
@@ -859,6 +884,18 @@ class TenSym(PySym):
                     return self.dot(t, self.ex(n.args[0]))
                 if m == "flatten" or m == "ravel":
                     return t.reshape([-1])
+                if m == "compress":
+                    cond = self.to_ten(self.ex(n.args[0]))
+                    axis = self.kw(n, "axis", 1, None)
+                    if axis is None or cond.ndim != 1:
+                        raise Unsupported("compress without an axis / with a mask that is not 1-d")
+                    axis = self.concrete(axis) % t.ndim
+                    keep = [k for k, x in enumerate(cond.data) if self.concrete(x) != 0]
+                    if len(cond.data) > t.shape[axis]:
+                        raise ShapeError("compress: mask of length %d for an axis of length %d" % (len(cond.data), t.shape[axis]))
+                    r_ = self.getitem(t, tuple([slice(None)] * axis + [keep]))
+                    r_.view = False
+                    return r_
                 raise Unsupported("array method %s" % m)
             if isinstance(recv, Obj):
                 cm = recv.__dict__.get("_methods") or {}
@@ -1109,6 +1146,22 @@ class TenSym(PySym):
                 res = Ten(sh, [Rat(Poly.const(int(f_(self.concrete(x) != 0, self.concrete(y) != 0)))) for x, y in zip(a_.data, b_.data)])
             res.isbool = True
             return res if res.shape != () else bool(self.concrete(res.data[0]))
+        if cn in ("np.clip",):
+            t = self.to_ten(A(0))
+            lo, hi = self.lift(A(1)), self.lift(A(2))
+            outp = self.kw(n, "out", 3, None)
+
+            def cl(x):
+                if self.sign(x - lo) < 0:
+                    return lo
+                if self.sign(x - hi) > 0:
+                    return hi
+                return x
+            res = Ten(t.shape, [cl(x) for x in t.data])
+            if isinstance(outp, Ten):
+                outp.data[:] = res.data
+                return outp
+            return self.unwrap(res)
         if cn in ("np.tile",):
             t = self.to_ten(A(0))
             reps = A(1)
@@ -1224,6 +1277,14 @@ class TenSym(PySym):
             if cn == "set":
                 return sorted(set(vals))
             return min(vals) if cn == "min" else max(vals)
+        if cn == "round":
+            v_ = self.lift(A(0))
+            c_ = v_.const_value() if isinstance(v_, Rat) else None
+            if c_ is None:
+                raise Unsupported("round of a symbolic value")
+            nd = self.concrete(A(1)) if len(n.args) > 1 else None
+            r_ = round(c_, nd) if nd is not None else round(c_)
+            return r_ if nd is None else Rat(Poly.const(Fraction(r_)))
         if cn == "frozenset":
             vals = [self.pyval(x) for x in (self.iterate(A(0)) if n.args else [])]
             if any(isinstance(v, (Rat, Ten, Obj, list)) for v in vals):
@@ -1235,6 +1296,12 @@ class TenSym(PySym):
         if cn in ("itertools.product", "product"):
             import itertools as _it
             return list(_it.product(*[self.iterate(self.ex(a)) for a in n.args]))
+        if cn in ("np.count_nonzero",):
+            t = self.to_ten(A(0))
+            nz = Ten(t.shape, [Rat(Poly.const(int(self.concrete(x) != 0))) for x in t.data])
+            axis = self.kw(n, "axis", 1, None)
+            r_ = nz.reduce(None if axis is None else self.concrete(axis))
+            return self.unwrap(r_) if isinstance(r_, Ten) else r_
         if cn in ("np.all", "np.any"):
             t = self.to_ten(A(0))
             cs = [x.const_value() for x in t.data]
@@ -1465,6 +1532,9 @@ class TenSym(PySym):
                 self.ex(s.value)
                 return
             if isinstance(s.value, ast.Call) and (call_name(s.value) or "").split(".")[-1] in ("warn", "write", "print"):
+                return
+            if isinstance(s.value, ast.Call) and (call_name(s.value) or "") in ("np.clip",) and any(k.arg == "out" for k in s.value.keywords):
+                self.ex(s.value)
                 return
             if isinstance(s.value, ast.Call) and isinstance(s.value.func, ast.Attribute) and s.value.func.attr in ("append", "extend", "insert", "remove", "pop", "update"):
                 self.ex(s.value)
